@@ -4,8 +4,6 @@
 package c01
 
 import (
-	"fmt"
-	"strings"
 	"testing"
 
 	"pgregory.net/rapid"
@@ -14,91 +12,34 @@ import (
 	"verif/harness/compose"
 )
 
-const prop = "C01"
-
-// C01 claims the caller-visible outcome (invocations, value, error, completion verdict and listeners), the post-state of
-// the stateful instances, the cache content, and that nothing hangs. Listener payloads and statistics belong to C16/C17.
-func wanted(cat string) bool {
-	return cat == "outcome" || cat == "state" || cat == "cache" || cat == "liveness"
-}
-
-func opts() compose.GenOpts {
-	o := compose.DefaultOpts()
-	if harness.Thorough() {
-		o.MaxStack, o.MaxPool, o.MaxSteps, o.MaxScript = 6, 6, 8, 8
-	}
-	return o
-}
-
-func property(test string, st *harness.Stats) func(*rapid.T) {
-	return func(t *rapid.T) {
-		sc := compose.GenScenario(t, opts())
-		noListeners := rapid.IntRange(0, 5).Draw(t, "noListeners") == 0
-		sr := compose.Check(t, prop, test, sc, noListeners, wanted)
-		record(st, sc, sr)
-	}
-}
-
-func record(st *harness.Stats, sc compose.Scenario, sr *compose.ScenarioResult) {
-	for k, v := range sr.Discards {
-		st.Count("discarded_"+k, v)
-	}
-	for k, v := range sr.Lenient {
-		st.Count("lenient_"+k, v)
-	}
-	st.Count("executions_compared", sr.Execs)
-	nt := len(sc.Stack) >= 2 && sr.MaxActions >= 1
-	repeated := false
-	seen := map[int]bool{}
-	kinds := map[string]bool{}
-	for _, p := range sc.Stack {
-		if seen[p] {
-			repeated = true
+// C01 claims the caller-visible outcome (invocations, value, error, completion verdict and completion listeners), the
+// post-state of the stateful instances, the cache content and traffic, and that nothing hangs. Per-policy listener
+// payloads and statistics belong to C16/C17.
+var cfg = compose.PropCfg{
+	Prop: "C01", Test: "TestCompose",
+	Opts: func(t *rapid.T) compose.GenOpts {
+		o := compose.DefaultOpts()
+		if harness.Thorough() {
+			o.MaxStack, o.MaxPool, o.MaxSteps, o.MaxScript = 6, 6, 8, 8
 		}
-		seen[p] = true
-		kinds[sc.Pool[p].Kind] = true
-	}
-	classes := []string{fmt.Sprintf("stack-len=%d", len(sc.Stack))}
-	for k := range kinds {
-		classes = append(classes, "kind="+k)
-	}
-	if repeated {
-		classes = append(classes, "repeated-instance")
-	}
-	if sr.Async {
-		classes = append(classes, "async")
-	}
-	if sr.Cancelled {
-		classes = append(classes, "self-cancel")
-	}
-	for k := range sr.Actions {
-		classes = append(classes, "action="+k)
-	}
-	var scripts []string
-	for _, s := range sc.Steps {
-		if s.Op == "exec" {
-			scripts = append(scripts, fmt.Sprint(s.Script))
-		}
-	}
-	key := sc.KindString() + "|" + sr.ActionString() + "|" + strings.Join(scripts, ";")
-	st.Case(key, nt, classes...)
-	if nt {
-		st.Sample(key, func() any { return sc.Sample() })
-	}
+		return o
+	},
+	Want: func(cat string) bool {
+		return cat == "outcome" || cat == "state" || cat == "cache" || cat == "liveness" || cat == "events/executor"
+	},
+	Nontrivial: func(sc compose.Scenario, sr *compose.ScenarioResult) bool {
+		return len(sc.Stack) >= 2 && sr.MaxActions >= 1
+	},
 }
 
 func TestCompose(t *testing.T) {
 	st := harness.NewStats("TestCompose")
 	defer st.Flush()
-	rapid.Check(t, property("TestCompose", st))
+	rapid.Check(t, cfg.Run(st))
 }
 
 func TestRegress(t *testing.T) {
 	st := harness.NewStats("TestRegress")
 	defer st.Flush()
-	for name, sc := range compose.LoadScenarios(t, "../../regress/c01") {
-		sr := compose.Check(t, prop, "TestRegress", sc, false, wanted)
-		record(st, sc, sr)
-		st.Sample(name, func() any { return sc.Sample() })
-	}
+	cfg.Regress(t, st, "../../regress/c01")
 }
